@@ -376,6 +376,8 @@ static Exec run_one(const Scenario& sc, const std::vector<uint8_t>& prefix, vr::
                 if (obs[w].fulfilled != 1)
                     throw sim::HarnessError { "warm-up request not fulfilled" };
         }
+        bool quiesced = false;
+        int sameReactor = 0, lastAct = -1;
         for (int point = 0; point < 300; ++point)
         {
             // enabled actions in canonical order
@@ -417,6 +419,7 @@ static Exec run_one(const Scenario& sc, const std::vector<uint8_t>& prefix, vr::
             {
                 if (sim::await_readiness(15))
                     continue;
+                quiesced = true;
                 break;
             }
             size_t i   = x.choices.size();
@@ -430,6 +433,16 @@ static Exec run_one(const Scenario& sc, const std::vector<uint8_t>& prefix, vr::
             x.choices.push_back((uint8_t)choice);
             x.nEnabled.push_back((uint8_t)en.size());
             int act = en[choice];
+            // a reactor thread that is ready again and again while nothing else happens is spinning (e.g. on a
+            // descriptor it never drains): the schedule would never go quiet
+            sameReactor = (act < 100 && act == lastAct) ? sameReactor + 1 : 0;
+            lastAct     = act;
+            if (sameReactor >= 25)
+            {
+                ctx.violation("c15:reactor-thread-spins-without-going-quiet", detail("\"reactor\":" + std::to_string(act)));
+                x.ok = false;
+                break;
+            }
             if (act < 100)
             {
                 trace += "R" + std::to_string(act) + " ";
@@ -807,6 +820,28 @@ int main(int argc, char** argv)
                 }
                 gScenarios.push_back(s);
             }
+    // mixed time-outs over two connections: which requests carry a time-out and which are never answered, all combinations
+    // (a timer used and released on one connection, then used on the other)
+    for (int mask = 1; mask < 8; ++mask)
+        for (int never = 1; never < 8; ++never)
+        {
+            if ((mask & never) == 0)
+                continue; // an unanswered request without a time-out only waits
+            if (!thorough && (mask == 7 || never == 7))
+                continue;
+            Scenario s { 1, 2, 3, {}, {}, maxD };
+            for (int i = 0; i < 3; ++i)
+            {
+                s.beh.push_back((never >> i & 1) ? B_NEVER : B_WHOLE);
+                s.timeoutMs.push_back((mask >> i & 1) ? 1000 : 0);
+            }
+            bool useful = true;
+            for (int i = 0; i < 3; ++i)
+                if ((never >> i & 1) && !(mask >> i & 1))
+                    useful = false; // (every unanswered request has a time-out)
+            if (useful)
+                gScenarios.push_back(s);
+        }
     // a connection attempt that fails at once, with further requests (needing further connections) issued meanwhile
     for (int threads : { 1, 2 })
         for (int n = 2; n <= 3; ++n)
